@@ -1430,6 +1430,71 @@ func ruleReadClamp(c *Ctx, id string) {
 		R.Undecided(id, "inode.Read|count clamped to the file's size", P.Pos(rd.Pos()), "Inode.Read has a block loop bounded by a comparison", "no loop test found")
 		return
 	}
+	// ... and it is taken when the request reaches the end of the file (not on the other side of the test): the
+	// value is min(count, Size - offset), or the phi of "if offset+count >= Size { count = Size - offset }"
+	{
+		isSizeLoad := func(v ssa.Value) bool {
+			nm, fl, _, isElem := loadedField(v)
+			return !isElem && nm == V.Inode && fl == "Size"
+		}
+		nPol, okPol := 0, true
+		for _, b := range rd.Blocks {
+			for _, in := range b.Instrs {
+				ph, isP := in.(*ssa.Phi)
+				if !isP || len(ph.Edges) != 2 {
+					continue
+				}
+				ci := -1
+				for i, e := range ph.Edges {
+					if isClamp(e) {
+						ci = i
+					}
+				}
+				if ci < 0 {
+					continue
+				}
+				d := b.Idom()
+				if d == nil {
+					continue
+				}
+				for _, br := range branches(rd) {
+					if br.Block != d || br.Cond.Y == nil {
+						continue
+					}
+					x, y, op := stripConv(br.Cond.X), stripConv(br.Cond.Y), br.Cond.Op
+					if isSizeLoad(x) {
+						x, y, op = y, x, flipOp(op)
+					}
+					sum, isSum := x.(*ssa.BinOp)
+					if !isSizeLoad(y) || !isSum || sum.Op != token.ADD {
+						continue
+					}
+					nPol++
+					// the side through which the clamp value arrives
+					pred := b.Preds[ci]
+					var side *ssa.BasicBlock
+					if pred == d {
+						side = b
+					} else if len(pred.Preds) == 1 && pred.Preds[0] == d {
+						side = pred
+					}
+					var reach *ssa.BasicBlock // the side on which offset+count reaches the size
+					switch op {
+					case token.GEQ, token.GTR:
+						reach = br.True
+					case token.LSS, token.LEQ:
+						reach = br.False
+					}
+					if side == nil || reach == nil || side != reach {
+						okPol = false
+					}
+				}
+			}
+		}
+		if nPol > 0 {
+			R.Check(okPol, id, "inode.Read|clamp taken on the side that reaches the end", P.Pos(rd.Pos()), "the count becomes Size - offset on the side of the test where offset+count reaches the size", "polarity of the clamp", "the clamp is applied on the wrong side of its test: a READ inside the file is stretched to the end of the file (more bytes than asked for), a READ over the end is not clamped at all")
+		}
+	}
 	R.Check(found, id, "inode.Read|count clamped to the file's size", P.Pos(rd.Pos()), "one of the values the loop bound can take is Size - offset", "clamp found", "the loop covers the requested count whatever the file's size: a READ over the end maps - and for holes allocates and links - blocks behind the size, which nothing ever frees, and returns bytes that are not part of the file")
 }
 
